@@ -151,8 +151,7 @@ Proof.
   - destruct (next_serial s) as [s1 k] eqn:En. destruct (deliver_user s1 t (a_tok a) (UProbe n k)) as [s2 o2] eqn:E.
     intros H; inversion H; subst. apply ext_of_keep; [exact K|]. eapply regsame_trans; [|eapply regsame_deliver_user; exact E].
     unfold next_serial in En. inversion En; subst. reflexivity.
-  - destruct (snd =? rNone); [intros H; inversion H; subst; apply ext_refl|].
-    destruct (next_serial s) as [s1 k] eqn:En. destruct (deliver_user s1 snd (a_tok a) (UProbe n k)) as [s2 o2] eqn:E.
+  - destruct (next_serial s) as [s1 k] eqn:En. destruct (deliver_user s1 snd (a_tok a) (UProbe n k)) as [s2 o2] eqn:E.
     intros H; inversion H; subst. apply ext_of_keep; [exact K|]. eapply regsame_trans; [|eapply regsame_deliver_user; exact E].
     unfold next_serial in En. inversion En; subst. reflexivity.
   - destruct (next_serial s) as [s1 k] eqn:En. destruct (send_each s1 (a_tok a) (a_children a) n k) as [s2 o2] eqn:E.
